@@ -4,6 +4,7 @@ import gc
 from harness import tlc
 from harness.common import Check, main_wrapper
 from harness.drivers import serve_common as sc
+from harness.drivers import serve_nested as sn
 
 PID = "C13"
 ACTIONS = ["Start", "CWrite", "WCheck", "WFinal", "CondIn", "CondOut", "STryLock", "SWait", "SBlocked", "SPoll", "SHdr",
@@ -38,12 +39,18 @@ def main():
     if chk.replay:
         import json
         rep = json.load(open(chk.replay))["replay"]
-        if rep.get("mode") != "indices":
+        if rep.get("mode") not in ("indices", "nested"):
             print("replay of a TLC path: rerun ./check C13")
             return 0
-        cfg = sc.CONFIGS[rep["config"]]
-        res = sc.run_impl(cfg["reqs"], cfg["bg"], sc.index_chooser(rep["indices"]), lines=rep.get("lines", False))
-        c13, _ = sc.judge(res, cfg["reqs"])
+        if rep.get("mode") == "nested":
+            cfg = sn.NCONFIGS[rep["config"]]
+            res = sc.run_impl(cfg["reqs"], False, sc.index_chooser(rep["indices"]), lines=rep.get("lines", False),
+                              fixture=sn.fixture_for(cfg["nested"]))
+            c13, _ = sn.judge(res, cfg)
+        else:
+            cfg = sc.CONFIGS[rep["config"]]
+            res = sc.run_impl(cfg["reqs"], cfg["bg"], sc.index_chooser(rep["indices"]), lines=rep.get("lines", False))
+            c13, _ = sc.judge(res, cfg["reqs"])
         for key, msg in c13:
             print("VIOLATION property=%s replay=%s\n   %s" % (PID, chk.replay, msg))
         return 1 if c13 else 0
@@ -72,6 +79,10 @@ def main():
                     {"mode": "trace", "config": cfgname, "tlc": r[1].stdout[-1500:]})
     for cfgname in (("2", "2bg", "2x", "2bgx") if not chk.thorough else ("2", "2bg", "2x", "2bgx", "3", "3bg")):
         sc.explore_line_preemptions(chk, cfgname, on_result)
+    # replies that carry references: the dispatching thread makes a round trip of its own inside the dispatch (RpycServeNested)
+    if sc.handoff_repaired():
+        sn.model_check(chk, chk.thorough)
+    sn.explore(chk, "c13", lambda k, m, r: problem("nested:" + k, "[nested round trips] " + m, r), lambda k, m, r: None, chk.thorough)
     chk.assumptions += [
         "preemption between operations on shared objects (locks, condition, transport, ready flag, dispatch entry); "
         "additionally every source line of serve/_dispatch/_seq_request_callback/_async_request/AsyncResult.wait/__call__/value as the "
